@@ -61,6 +61,11 @@ struct Factors {
   }
 };
 
+#ifdef VH_FP
+}  // namespace verif
+#include "vh_fpops.h"
+namespace verif {
+#else
 template <typename E, typename T>
 void applyH(const json &in, json &out) {
   const json &ja = in.at("a");
@@ -131,6 +136,7 @@ template <typename E1, typename E2>
 struct RegBF {
   explicit RegBF(const char *key) { bfRegistry()[key] = bfH<E1, E2, VH_SCALAR>; }
 };
+#endif  // VH_FP
 
 }  // namespace verif
 #endif
